@@ -520,6 +520,27 @@ async def l3_multi_copy(part, kind, msgs, r):
             backends.rmtree(base)
 
 
+def l1_copyuid(m, part, r, n):
+    """`CopyUid` against the Lean `CopyUid.announce`: the pairs a client reads off the response code for the copies (src_i, dst_i), made in any order"""
+    from pymap.parsing.response.code import CopyUid
+    for _ in range(n):
+        k = r.randint(1, 9)
+        srcs = r.sample(range(1, 140), k)
+        if r.random() < 0.5:
+            srcs.sort()
+        nxt = r.randint(1, 130)
+        dsts = list(range(nxt, nxt + k)) if r.random() < 0.7 else r.sample(range(1, 140), k)
+        raw = bytes(CopyUid(1, zip(srcs, dsts)))
+        mt = re.match(rb'\[COPYUID 1 (\S+) (\S+)\]$', raw)
+        real = 'unreadable' if not mt else ','.join(map(str, _expand_set(mt.group(1)))) + '|' + ','.join(map(str, _expand_set(mt.group(2))))
+        mod = m.ask(f'copyuid {",".join(map(str, srcs))} {",".join(map(str, dsts))}')
+        part.stat('L1-copyuid')
+        part.case(key=f'copyuid:{srcs}:{dsts}', nontrivial=srcs != sorted(srcs) or k > 2)
+        if mod != real:
+            part.violation('correspondence', f'CopyUid for the copies {list(zip(srcs, dsts))}: the code announces {raw!r} (read as {real}), the model {mod}',
+                           dict(level='L1', scenario='copyuid', srcs=srcs, dsts=dsts), signature='L1-copyuid')
+
+
 # ------------------------------------------------------------------ driver
 def worker(job):
     seed, n_l1, n_l3, corpus = job
@@ -538,6 +559,7 @@ def worker(job):
             if mod != nats(b[o:o + n]):
                 part.violation('correspondence', f'getPartial {b!r} {o} {n}: model {mod}', dict(level='L1', data=list(b), o=o, n=n),
                                signature='L1-partial')
+        l1_copyuid(m, part, r, max(40, n_l1 // 10))
     finally:
         m.close()
     msgs = list(corpus) + [gen.message(r) for _ in range(n_l3)]
